@@ -1005,6 +1005,13 @@ func (s *Store) monitorLeaseAsPrimary(ctx context.Context, lease Lease) error {
 				// must not keep acting as primary until the next periodic renewal.
 				return err
 			} else if err != nil {
+				// The handoff renews the lease first. If that failed, apply the
+				// same rule as a failed periodic renewal: do not continue as
+				// primary when the next renewal would exceed the TTL.
+				if time.Since(lease.RenewedAt())+timeout > lease.TTL() {
+					time.Sleep(timeout)
+					return ErrLeaseExpired
+				}
 				log.Printf("%s: handoff unsuccessful, continuing as primary", FormatNodeID(s.id))
 				continue
 			}
